@@ -4,13 +4,15 @@
   Every theorem holds for an ARBITRARY hash function `H` (crypto.Keccak256 in the code), all logs/receipts/chains, all criteria,
   all ranges, all section sizes the generator accepts and every index progress.
 
-  Partial by construction (stated once): the matcher's goroutine pipeline (channels, distributor, retrievers, scheduler cache,
-  session shutdown) is modelled by its input/output function — `matcherRun` — only; the theorems that talk about a whole
-  matcher session carry the suffix `_partial` for that reason. Context cancellation / retrieval errors are outside the model.
+  The matcher's goroutine pipeline is modelled as a transition system (Aqv.Model.MatcherPipeline: source feed, one two-channel stage
+  per filter group, scheduler de-duplication and cache, an arbitrary delivery environment); `matcher_session_spec` shows that every
+  schedule computes the input/output function `matcherRun` used by `logs_exact`. Channel capacities, the quit/kill shutdown path,
+  context cancellation and retrieval errors are outside the model.
 -/
 import Aqv.Lemmas.LogFilterQuery
 import Aqv.Lemmas.LogFilterCompress
 import Aqv.Lemmas.LogFilterIndexer
+import Aqv.Lemmas.MatcherPipeline
 import Aqv.Gen.Bloom
 namespace Aqv.Props.C16
 open Aqv Aqv.LogFilter
@@ -173,9 +175,9 @@ theorem extraction_spec (size b e s : Nat) (hs : 0 < size) (h8 : size % 8 = 0) (
 example : extract 16 0 15 0 [0x00, 0x80] = [8] := by decide
 
 /-- A whole matcher session over the committed index (`begin ≤`/`>` `end`, any alignment, `end` inside the indexed part):
-    the delivered block numbers are exactly the `n ∈ [begin, end]` whose header bloom passes `bloomFilter`, in increasing order.
-    `_partial`: the session is its input/output function (see the header). -/
-theorem matcher_session_spec_partial (H : HashFn) (chain : List Block) (hv : ChainValid H chain) (size sections : Nat)
+    the input/output function `matcherRun` yields exactly the `n ∈ [begin, end]` whose header bloom passes `bloomFilter`, in
+    increasing order. That the concurrent pipeline computes this function under every delivery schedule is `matcher_session_spec`. -/
+theorem matcher_run_spec (H : HashFn) (chain : List Block) (hv : ChainValid H chain) (size sections : Nat)
     (h8 : size % 8 = 0) (h2048 : 2048 ≤ size) (hidx : sections * size ≤ chain.length) (c : Criteria) (b e : Nat)
     (he : e < sections * size) :
     ∃ index, buildIndex size (chain.map (·.bloom)) sections = .ok index ∧
@@ -301,6 +303,74 @@ theorem linked_walk_accepted (lastHead : Nat) (walk : List Hdr) (h : Linked last
 -- non-vacuity: a mixed walk (second header from another fork: its parent is not the first header) is refused, a linked one passes.
 example : walkSection 0 [⟨1, 0, []⟩, ⟨22, 11, []⟩] = .error .reorged := rfl
 example : Linked 0 [⟨1, 0, []⟩, ⟨2, 1, []⟩] := ⟨rfl, rfl, trivial⟩
+
+/-! ## 2c. the matcher session as a concurrent pipeline -/
+
+/-- `matcher_session_spec`: for EVERY schedule (any interleaving of the source feed, the stages' two goroutines and the deliveries —
+    in any order, repeated, missing-and-re-requested, or unrequested) over the committed index, every reachable state of the session
+    satisfies: (1) the sink has received a PREFIX of the per-section results of the pure pipeline (`matcher_spec`'s `runSection`),
+    each at most once and nothing else; (2) when all channels are empty and the range is exhausted, what `Start` delivers from the
+    sink is exactly the blocks `n ∈ [begin, end]` whose header bloom passes `bloomFilter`, ascending — the function `matcherRun`
+    that `Filter.Logs` consumes; (3) termination: once the requested vectors have been delivered the session is finished or takes a
+    step that strictly decreases the measure `mu` (and no step ever increases it), so it cannot run forever or get stuck. -/
+theorem matcher_session_spec (H : HashFn) (chain : List Block) (hv : ChainValid H chain) (size sections : Nat)
+    (h8 : size % 8 = 0) (h2048 : 2048 ≤ size) (hidx : sections * size ≤ chain.length) (c : Criteria) (b e : Nat)
+    (he : e < sections * size) :
+    ∃ index, buildIndex size (chain.map (·.bloom)) sections = .ok index ∧
+      ∀ σ, Reach (indexVec index) size (initSess (newMatcherFilters H (flattenCriteria c)) (sessionSections size b e)) σ →
+        (∃ rest, σ.output ++ rest =
+          (sessionSections size b e).filterMap (fun s =>
+            (runSection (indexVec index s) size (newMatcherFilters H (flattenCriteria c))).map (fun r => (s, r)))) ∧
+        (σ.final → deliverMatches size b e σ.output =
+          (List.range' b (e + 1 - b)).filter (fun n => bloomFilter H (bloomAt chain n) c)) ∧
+        ((∀ p ∈ σ.requested, p ∈ σ.cached) → σ.final ∨ ∃ σ', Step (indexVec index) size σ σ' ∧ σ'.mu < σ.mu) ∧
+        (∀ σ', Step (indexVec index) size σ σ' → σ'.mu ≤ σ.mu) := by
+  obtain ⟨index, hb, hrun⟩ := matcher_run_spec H chain hv size sections h8 h2048 hidx c b e he
+  refine ⟨index, hb, fun σ hreach => ?_⟩
+  obtain ⟨hg, hinv⟩ := sessInv_reach (indexVec index) size _ _ σ hreach
+  have hexp : expected (indexVec index) size (newMatcherFilters H (flattenCriteria c)) (sessionSections size b e) =
+      (sessionSections size b e).filterMap (fun s =>
+        (runSection (indexVec index s) size (newMatcherFilters H (flattenCriteria c))).map (fun r => (s, r))) := by
+    unfold expected
+    congr 1
+    funext s
+    exact finishThrough_fresh (indexVec index) size _ s
+  refine ⟨⟨_, by rw [← hexp, ← hinv, List.append_assoc]⟩, ?_, ?_, ?_⟩
+  · intro hfin
+    have hfl := flight_final (indexVec index) size σ.stages hfin.2
+    rw [hfl, hfin.1] at hinv
+    simp only [List.append_nil, List.filterMap_nil] at hinv
+    rw [hinv, ← hrun]
+    unfold sessionSections matcherRun
+    exact deliverMatches_expected size index _ b e _ _
+  · exact session_progress (indexVec index) size _ _ σ hreach
+  · intro σ' hs
+    exact (step_mu (indexVec index) size σ σ' hs).1
+
+/-- `no_result_before_all_vectors`: in every reachable state, for every item at the sink, every bit vector of every filter group for
+    that section has been requested from the distributor and delivered; and requests are forwarded to the distributor at most once
+    per (bit, section) however many stages and alternatives share the bit (scheduler de-duplication). -/
+theorem no_result_before_all_vectors (vec : Nat → Nat → Bytes) (size : Nat) (groups : List Group) (sections : List Nat) (σ : Sess)
+    (h : Reach vec size (initSess groups sections) σ) :
+    (∀ y ∈ σ.output, ∀ g ∈ groups, ∀ bit ∈ groupBits g, (bit, y.1) ∈ σ.cached ∧ (bit, y.1) ∈ σ.requested) ∧ σ.sent.Nodup := by
+  obtain ⟨_, _, hout⟩ := readyInv_reach vec size groups sections σ h
+  obtain ⟨hnd, _, hcr⟩ := reqInv_reach vec size groups sections σ h
+  exact ⟨fun y hy g hg bit hb => ⟨hout y hy g hg bit hb, hcr _ (hout y hy g hg bit hb)⟩, hnd⟩
+
+/-- `sections_emitted_in_order`: whatever the delivery order, the sections arrive at the sink in strictly increasing order (hence
+    each at most once), for a session over an increasing section range such as `begin/size … end/size`. -/
+theorem sections_emitted_in_order (vec : Nat → Nat → Bytes) (size : Nat) (groups : List Group) (s0 k : Nat) (σ : Sess)
+    (h : Reach vec size (initSess groups (List.range' s0 k)) σ) : List.Pairwise (fun a b => a < b) (σ.output.map (·.1)) := by
+  obtain ⟨_, hinv⟩ := sessInv_reach vec size groups _ σ h
+  have hsub : (σ.output.map (·.1)).Sublist (List.range' s0 k) := by
+    refine List.Sublist.trans ?_ (expected_sections_sublist vec size groups (List.range' s0 k))
+    rw [← hinv, List.append_assoc, List.map_append]
+    exact List.sublist_append_left _ _
+  exact List.Pairwise.sublist hsub (List.pairwise_lt_range' 1)
+
+-- non-vacuity: sessions have reachable states beyond the initial one (here: after `run` fed section 0 into the single stage).
+example : ∃ σ, Reach (fun _ _ => []) 16 (initSess [[(1, 2, 3)]] [0, 1]) σ ∧ σ.source = [1] :=
+  ⟨_, Reach.step _ _ Reach.refl (Step.feedStage _ 0 [1] ⟨[(1, 2, 3)], [], []⟩ [] rfl rfl), rfl⟩
 
 /-! ## 3. log queries are exact -/
 
